@@ -358,6 +358,7 @@ impl Prop for C01 {
             "all 5040 member orders of the fixed event, canonical spelling".into(),
             "all 5040 member orders x one unknown member at a position cycling through all 8".into(),
             format!("{} x {} kind/created_at integer texts", KIND_TABLE.len(), TIME_TABLE.len()),
+            "minimal event texts: kind in {0,1,9,10} x created_at in {0,9,10} x content in {\"\",x} x 8 member orders, no tags".into(),
         ]
     }
     fn enumerate(&self, _tier: Tier) -> Vec<Case> {
@@ -413,6 +414,34 @@ impl Prop for C01 {
                 buf: 10,
                 fill: 0xff,
             });
+        }
+        // the shortest possible event texts (333 bytes) and their neighbours
+        for kind in [0u16, 1, 9, 10] {
+            for created_at in [0u64, 9, 10] {
+                for content in ["", "x"] {
+                    for (n, order) in permutations(7).into_iter().enumerate().filter(|(n, _)| n % 720 == 0 || *n == 5039) {
+                        let mut m = ev.clone();
+                        m.kind = kind;
+                        m.created_at = created_at;
+                        m.tags = vec![];
+                        m.content = content.to_string();
+                        v.push(Case {
+                            src: Src::Model {
+                                ev: m,
+                                plan: Plan { order, ..Plan::default() },
+                                kind_txt: None,
+                                created_txt: None,
+                                upper_hex: false,
+                                surrogate: false,
+                                trailing: String::new(),
+                                hex_corrupt: None,
+                            },
+                            buf: (n % 3) as u8 * 5,
+                            fill: 0,
+                        });
+                    }
+                }
+            }
         }
         for k in KIND_TABLE {
             for t in TIME_TABLE {
